@@ -240,6 +240,19 @@ def run(repo, chk):
     idem = [e for n in g.nodes if n.kind == 'test' and src(n.ast) in ('self.unregister_pending', 'self._unregister_pending') for e in n.succ if e.kind == 'F']
     ok_idem = bool(idem) and all(e.dst.kind == 'stmt' and isinstance(e.dst.ast, ast.Return) for e in idem)
     chk.ob('f', done.ref, 'a completion for an unregistration that is not pending (any more) does nothing', ok_idem, loc(done, done.node), discr='stale-completion-ignored')
+    # ---- g: … also within one dispatch: a handler may tick()/flush() (stop() on a hand-driven loop does), which can complete an unregistration while the
+    #         dispatcher still works through a handler list it computed before
+    chk.rule('C07.g', 'the dispatcher does not hand an event to a handler whose component has left the tree since the handler list was computed (a nested tick()/flush() '
+                      'inside an earlier handler of the same event may have completed its unregistration)')
+    from .common import dispatcher_loop
+    dsp = repo.func(MANAGER, 'Manager._dispatcher')
+    lp_, hv_, sites_, _h = dispatcher_loop(repo, dsp)
+    gd = dsp.cfg()
+    checks = [n for n in gd.nodes if n.kind == 'test' and ('loop', lp_.ast) in n.ctx and hv_ in Q.names_used(n.ast) and ('.root' in src(n.ast) or 'unregister_pending' in src(n.ast)
+                                                                                                                    or '_cache_needs_refresh' in src(n.ast))]
+    okg = bool(checks) and all(Q.reachable_without(gd, s_, start=lp_, avoid_node=lambda n: n in checks, weak=True) is None for s_ in sites_)
+    chk.ob('g', dsp.ref, 'before each handler is invoked the dispatcher makes sure that its component still belongs to this tree', okg, loc(dsp, lp_.ast),
+           discr='handlers-still-in-tree')
     # ---- e: the tree a child joins / leaves forgets its memoised handler lists ------------------------------
     chk.rule('C07.e', 'adding or removing a child invalidates the dispatch memo of the tree it joins / leaves (a detached component receives '
                       'nothing further from its former tree)')
